@@ -461,7 +461,9 @@ def run(ctx):
                         continue
                     chi = chi_poly([F(v) for v in col])
                     size = sum(abs(F(cv) * chi(k)) for k, cv in d.items())
-                    if size < 2 ** 52 or abs(F(w) - F(g)) > F(1, 10 ** 9) * size:
+                    # (exact in float64 only while size x common denominator stays below 2^53: a coefficient 1/64 in front of terms of
+                    # size 2^47 already needs 54 bits; a few units in the last place of `size` are rounding, anything more is wrong)
+                    if abs(F(w) - F(g)) > F(1, 2 ** 49) * size:
                         bad = True
                 if bad:
                     ctx.violation('evaluation on a matrix of points: wrong values', {'stream': 'matrix', 'case': c, 'observed': io, 'want': want})
